@@ -300,6 +300,9 @@ def main(argv=None):
             "solver_s": round(sum(r.get("solver_s", 0.0) for r in results), 2),
             "cpu_s": round(sum(r.get("wall_s", 0.0) for r in results), 1),
             "functions_encoded": funcs,
+            "programs": int(sum(r.get("programs", 0) or 0 for r in results)),
+            "expressions_with_full_bound": int(sum(r.get("full_bound", 0) or 0 for r in results)),
+            "max_unrolling_L": max([r.get("maxL", 0) or 0 for r in results] + [0]),
             "bounds": getattr(mod, "BOUNDS", ""),
             "samples": samples,
             "exhaustive": False,
